@@ -98,6 +98,34 @@ fn main() {
                 }
             }
         }
+        "minimise" => {
+            // ksim minimise <case-or-replay.json> [budget_s]: minimise a failing case, print it
+            let path = args.get(2).cloned().unwrap_or_default();
+            let budget: f64 = args.get(3).and_then(|s| s.parse().ok()).unwrap_or(120.0);
+            let txt = std::fs::read_to_string(&path).expect("read");
+            let case: ops::Case = match serde_json::from_str::<ops::ReplayFile>(&txt) {
+                Ok(rf) => rf.case,
+                Err(_) => serde_json::from_str(&txt).expect("case json"),
+            };
+            match runner::check_isolated(&case.prop, &case, 60.0) {
+                None => {
+                    println!("case passes");
+                    0
+                }
+                Some(v) => {
+                    println!("rule: {}", v.rule);
+                    let mut m = runner::Minimiser { prop: &case.prop, rule: v.rule.clone(), deadline: std::time::Instant::now() + std::time::Duration::from_secs_f64(budget), attempts: 0, max_attempts: 20000 };
+                    let small = m.minimise(&case);
+                    println!("attempts: {}", m.attempts);
+                    println!("cfg:\n{}", small.cfg);
+                    println!("ops: {}", ops::ops_short(&small.ops));
+                    let out = format!("{path}.min.json");
+                    std::fs::write(&out, serde_json::to_string(&small).unwrap()).unwrap();
+                    println!("written {out}");
+                    0
+                }
+            }
+        }
         "rejects" => {
             // histogram of parser rejection messages for generated cases (generator tuning aid)
             let prop = args.get(2).cloned().unwrap_or_default();
